@@ -301,6 +301,16 @@ class Ref:
         for mid in [m for m, c in r["mets"].items() if c == 0]:
             del r["mets"][mid]
 
+    def op_bounds_seq(self, op, o, out):
+        r = self.rxns[self.pick(o["r"], op["rxn"])]
+        attr = op["first"]
+        for v in op["vals"]:
+            if attr == "lb" and v <= r["ub"]:
+                r["lb"] = v
+            elif attr == "ub" and v >= r["lb"]:
+                r["ub"] = v
+            attr = "ub" if attr == "lb" else "lb"
+
     def op_bounds(self, op, o, out):
         r = self.rxns[self.pick(o["r"], op["rxn"])]
         kind = op["kind"]
